@@ -30,6 +30,12 @@ class Ctx(object):
 
 def main(argv):
     sys.setrecursionlimit(20000)
+    try:
+        import faulthandler
+        import signal
+        faulthandler.register(signal.SIGUSR1, all_threads=True)
+    except Exception:
+        pass
     if not argv:
         print('usage: check <property-id> [--tier quick|thorough] [--replay path]')
         return 2
